@@ -428,7 +428,8 @@ def check_property(prop, tier, seed, jobs=None, only=None, verbose=False):
         "wall_s": round(wall, 2),
         "violations": len(violations),
     }
-    evdir = os.environ.get("PYVC_EVIDENCE_DIR", os.path.join(ROOT, "evidence"))
+    # a partial run (--only) is a debugging aid: it must not overwrite the property's evidence file
+    evdir = os.environ.get("PYVC_EVIDENCE_DIR", os.path.join(ROOT, "evidence") if only is None else os.path.join(ROOT, ".scratch", "evidence"))
     os.makedirs(evdir, exist_ok=True)
     json.dump(ev, open(os.path.join(evdir, prop + ".json"), "w"), indent=1)
 
